@@ -1,32 +1,33 @@
 (* C53 — diff reports exactly the paths that differ between two snapshots.  Statements only.
    [diff_tree sm d [] t1 t2] = the lines printed by Comparer.diffTree for root trees t1, t2
    ([sm] = --metadata, [d] = depth fuel); [find t p] = the node a path denotes in a snapshot;
-   [wfb d t] = names strictly increasing on every level and depth <= d;
-   [NKC t1 t2] = no path is a directory in one snapshot and a non-directory in the other. *)
+   [wfb d t] = names strictly increasing on every level and depth <= d.
+   The model follows /repo after the F-C53 fix (8fb513213): the statements need no
+   restriction on directory <-> non-directory changes any more. *)
 From Restic Require Import Base.Prelude Model.C53m Proofs.C53p.
 Import C53m.
 
 (* a line is printed iff the path's status in the two snapshots demands it *)
-Theorem C53_diff_exact : forall sm d t1 t2, wfb d t1 = true -> wfb d t2 = true -> NKC t1 t2 ->
+Theorem C53_diff_exact : forall sm d t1 t2, wfb d t1 = true -> wfb d t2 = true ->
   forall l, In l (diff_tree sm d [] t1 t2) <-> Demanded sm t1 t2 l.
 Proof. exact diff_exact. Qed.
 
-Theorem C53_added_exact : forall sm d t1 t2, wfb d t1 = true -> wfb d t2 = true -> NKC t1 t2 ->
+Theorem C53_added_exact : forall sm d t1 t2, wfb d t1 = true -> wfb d t2 = true ->
   forall p s, In (Plus, p, s) (diff_tree sm d [] t1 t2) <->
               find t1 p = None /\ exists n, find t2 p = Some n /\ s = isdir n.
 Proof. exact added_exact. Qed.
 
-Theorem C53_removed_exact : forall sm d t1 t2, wfb d t1 = true -> wfb d t2 = true -> NKC t1 t2 ->
+Theorem C53_removed_exact : forall sm d t1 t2, wfb d t1 = true -> wfb d t2 = true ->
   forall p s, In (Minus, p, s) (diff_tree sm d [] t1 t2) <->
               find t2 p = None /\ exists n, find t1 p = Some n /\ s = isdir n.
 Proof. exact removed_exact. Qed.
 
-Theorem C53_type_change_exact : forall sm d t1 t2, wfb d t1 = true -> wfb d t2 = true -> NKC t1 t2 ->
+Theorem C53_type_change_exact : forall sm d t1 t2, wfb d t1 = true -> wfb d t2 = true ->
   forall p a b, find t1 p = Some a -> find t2 p = Some b ->
   ((exists m q u s, In (Mod true m q u, p, s) (diff_tree sm d [] t1 t2)) <-> nty a <> nty b).
 Proof. exact type_change_exact. Qed.
 
-Theorem C53_content_change_exact : forall sm d t1 t2, wfb d t1 = true -> wfb d t2 = true -> NKC t1 t2 ->
+Theorem C53_content_change_exact : forall sm d t1 t2, wfb d t1 = true -> wfb d t2 = true ->
   forall p a b, find t1 p = Some a -> find t2 p = Some b ->
   ((exists t q u s, In (Mod t true q u, p, s) (diff_tree sm d [] t1 t2)) <->
    isfile a = true /\ isfile b = true /\ ncontent a <> ncontent b).
@@ -36,7 +37,7 @@ Theorem C53_identical_trees_silent : forall sm d pre t, diff_tree sm d pre t t =
 Proof. exact identical_trees_silent. Qed.
 
 Theorem C53_identical_subtree_silent : forall sm d t1 t2,
-  wfb d t1 = true -> wfb d t2 = true -> NKC t1 t2 ->
+  wfb d t1 = true -> wfb d t2 = true ->
   forall p n, find t1 p = Some n -> find t2 p = Some n ->
   forall r m s, ~ In (m, p ++ r, s) (diff_tree sm d [] t1 t2).
 Proof. exact identical_subtree_silent. Qed.
@@ -47,13 +48,12 @@ Theorem C53_dual_pairs_by_name : forall l1 l2, sortedb l1 = true -> sortedb l2 =
   exists x, o1 = lookup x l1 /\ o2 = lookup x l2 /\ (o1 <> None \/ o2 <> None).
 Proof. exact dual_spec. Qed.
 
-(* F-C53: with a directory replaced by a file the property fails for the paths below it *)
-Theorem C53_dir_to_file_refuted :
-  wfb 3 ex_t1 = true /\ wfb 3 ex_t2 = true /\
-  (exists n, find ex_t1 [1%N; 1%N] = Some n) /\ find ex_t2 [1%N; 1%N] = None /\
-  (forall sm m s, ~ In (m, [1%N; 1%N], s) (diff_tree sm 3 [] ex_t1 ex_t2)) /\
-  ~ NKC ex_t1 ex_t2.
-Proof. exact dir_to_file_refuted. Qed.
+(* a directory replaced by a non-directory (former F-C53): the paths below it are listed *)
+Theorem C53_kind_change_children_listed : forall sm d t1 t2,
+  wfb d t1 = true -> wfb d t2 = true ->
+  forall x a b r n, lookup x t1 = Some a -> lookup x t2 = Some b -> isdir a = true -> isdir b = false ->
+  find (nsub a) r = Some n -> In (Minus, x :: r, isdir n) (diff_tree sm d [] t1 t2).
+Proof. exact kind_change_children_listed. Qed.
 
 Theorem C53_oracle_sound : forall c,
   wfb (c_fuel c) (c_t1 c) = true -> wfb (c_fuel c) (c_t2 c) = true ->
@@ -62,7 +62,7 @@ Theorem C53_oracle_sound : forall c,
 Proof. exact check_C53_iff. Qed.
 
 Theorem C53_model_meets_oracle : forall sm d t1 t2,
-  wfb d t1 = true -> wfb d t2 = true -> NKC t1 t2 ->
+  wfb d t1 = true -> wfb d t2 = true ->
   lset_eqb (diff_tree sm d [] t1 t2) (expected sm d t1 t2) = true.
 Proof. exact model_meets_oracle. Qed.
 
@@ -74,6 +74,6 @@ Print Assumptions C53_content_change_exact.
 Print Assumptions C53_identical_trees_silent.
 Print Assumptions C53_identical_subtree_silent.
 Print Assumptions C53_dual_pairs_by_name.
-Print Assumptions C53_dir_to_file_refuted.
+Print Assumptions C53_kind_change_children_listed.
 Print Assumptions C53_oracle_sound.
 Print Assumptions C53_model_meets_oracle.
